@@ -23,13 +23,17 @@ func (pt *WgCounter) Count() int {
 	return int(pt.count.Load())
 }
 
-func (pt *WgCounter) Done() {
+// Done marks one item as finished. It reports whether this call was the one that
+// brought the counter to zero, so that exactly one caller performs the final clean-up.
+func (pt *WgCounter) Done() bool {
 	if pt.count.Load() == 0 {
-		return
+		return false
 	}
 
-	pt.count.Add(^uint32(0))
+	last := pt.count.Add(^uint32(0)) == 0
 	pt.wg.Done()
+
+	return last
 }
 
 func (pt *WgCounter) Wait() {
